@@ -127,12 +127,17 @@ Lemma location_path_addresses root m q t ctx :
   subtree root q = Some t -> is_tag_t t = true ->
   eval (docnode root) m (location_path root (0 :: q)) ctx = Ok [(0 :: q, t)].
 Proof.
-  intros Hs Ht. unfold eval, location_path. cbn [d_paths d_path fold_left].
+  intros Hs Ht.
   assert (Hr : is_tag_t root = true) by (eapply root_is_tag; eauto).
   assert (H0 : d_step (docnode root) m star_step ([([], docnode root)], None) = ([([0], root)], None)).
   { apply d_step_single. unfold d_step1, star_step. cbn [d_axis].
     rewrite filter_test_star by (apply children_nonnil). cbn. unfold tagc. cbn. rewrite Hr. reflexivity. }
-  rewrite H0. rewrite (lp_steps_eval (docnode root) m q root [0] t Hs Ht). cbn. reflexivity.
+  pose proof (lp_steps_eval (docnode root) m q root [0] t Hs Ht) as E.
+  assert (Hp : d_path (docnode root) m (LocationPath true (star_step :: lp_steps root q)) ctx = ([(0 :: q, t)], None)).
+  { unfold d_path. cbn [fold_left].
+    match goal with |- fold_left ?F ?l ?a = _ =>
+      transitivity (fold_left F l ([([0], root)], None)); [apply (f_equal (fold_left F l)); exact H0 | exact E] end. }
+  unfold eval, location_path. cbn [d_paths]. rewrite Hp. cbn. reflexivity.
 Qed.
 
 Lemma location_path_injective root q t q' t' :
